@@ -453,7 +453,10 @@ def _kinds_c13(T, extra, win=(1, None)):
 def fam_coarse(thorough=False):
     ids = Ids()
     out = []
-    for T, win in [(4, (1, None)), (4, (3, None)), (6, (1, 5))] if thorough else [(4, (1, None)), (4, (3, None))]:
+    # windows start on a coarse boundary (counted from the grid start, so both anchorings agree); they end at the horizon end, on a
+    # coarse boundary inside the horizon, or in the middle of a coarse step (the last coarse step is then shorter)
+    wins = [(4, (1, None)), (4, (3, None)), (6, (1, 4)), (6, (3, 6))] + ([(6, (1, 5)), (6, (1, 6)), (5, (1, None))] if thorough else [])
+    for T, win in wins:
         group = [(s - 1) // 2 + 1 for s in range(1, T + 1)]       # coarse step of 2 fine steps, anchored at the grid start
         for name, assets in _kinds_c13(T, dict(group=group, freq='2h'), win):
             out.append(F.make_cfg(ids(), T, assets, variant=name, option='coarse'))
